@@ -102,6 +102,11 @@ STATEFUL = [
     "$hostdict.delete(k)", "$hostdict.deleteAll([k, m])", "$hostvar.delete(0)",
     "$hostdict.remove(k)", "$hostvar.insert(0, $.n)", "$hostvar.replace(0, $.n)",
     "$hostdict.m.set(w, $.n)", "$hostvar[2] + [$.n]", "$hostdict.k.append($.n)",
+    "kindOf($.n)", "kindOf($.s)", "[kindOf($.n), kindOf($.s), kindOf($.list)]",
+    "$.list.select(kindOf($))", "$.strs.select(kindOf($))", "kindOf($.none)",
+    "chained($.s)", "notStr($.n)", "[notStr($.list), chained($.s)]",
+    "subLen($.list)", "subLen($.strs)", "subSum($.list)",
+    "[subLen($.list), subSum($.list)]", "$.nested.select(subLen($))",
     "$yobj.foo", "$yobj.bar", "[$yobj.foo, $yobj.name]", "$yobj.upper($.s)",
     "$yobj.items[0]", "$yobj.add($.n, 1)", "[$yobj.bar, $yobj.add(1, $.n)]",
     "$yobj2.foo", "[$yobj2.name, $yobj.name]", "$yobj.child.foo",
@@ -206,14 +211,23 @@ def gen_case(seeds, params, index):
             'mean': s.choice([3, 30, 300, 3000]),
             'nswitch': s.randrange(1, 6)}
     modes = []
-    for ops in tasks:
+    pair_modes = mix == 'same' and w.random() < 0.3
+    for ti_, ops in enumerate(tasks):
         for si, di in ops:
             r = w.random()
+            if pair_modes and stmts[si]['kind'] == 'text':
+                # the same text under a lax engine in one thread and under a
+                # stricter derived engine in the others
+                if ti_ > 0:
+                    modes.append([si, di, w.choice(['copyl', 'copyq', 'copy'])])
+                continue
             if stmts[si]['kind'] == 'text' and r < 0.3:
-                modes.append([si, di, w.choice(['parse', 'parse', 'copy', 'yi'])])
+                modes.append([si, di, w.choice(['parse', 'parse', 'copy', 'yi',
+                                                'copyq', 'copyl'])])
     return {'stmts': stmts, 'docs': docs, 'tasks': tasks, 'sched': spec,
             'via_eval': eval_flavour, 'cold': w.random() < 0.25,
-            'shared': w.choice(['plain', 'plain', 'plain', 'multi', 'linked']),
+            'shared': w.choice(['plain', 'plain', 'plain', 'multi', 'linked',
+                                'bare']),
             'modes': modes}
 
 
@@ -279,7 +293,11 @@ class World:
         self.case = case
         self.probe_calls = 0
         self._names = None
-        if cold:
+        if case.get('shared') == 'bare':
+            # a chain the host populated by hand: no finalizer anywhere
+            root = c09.bare_root().create_child_context() if not cold else \
+                self._fresh_bare()
+        elif cold:
             # a context chain nobody has evaluated anything in yet: fresh
             # FunctionDefinition clones (first-use / lazy-initialisation
             # races are invisible on a warmed-up chain).  Their simulator
@@ -294,15 +312,44 @@ class World:
         # the host prepares part of the shared context with yaql itself: the
         # lambdas behind these functions outlive the evaluation that made them
         eng = synth.chain_engine('default')
-        for text in ('def(sq, $ * $)', 'def(pairUp, [$, $ + 1])',
-                     'def(addN, $1 + $2)'):
-            P = eng(text).evaluate(context=P)
+        if case.get('shared') != 'bare':    # (would need a finalizer first)
+            for text in ('def(sq, $ * $)', 'def(pairUp, [$, $ + 1])',
+                         'def(addN, $1 + $2)'):
+                P = eng(text).evaluate(context=P)
 
         def probe(x):
             return x
+
+        from yaql.language import specs as _specs, yaqltypes as _T
+
+        @_specs.parameter('arg', _T.AnyOf(_T.Integer(), _T.String(),
+                                          _T.Iterable(), nullable=True))
+        def kind_of(arg):
+            return '%s:%s' % (type(arg).__name__, arg if not hasattr(
+                arg, '__iter__') or isinstance(arg, str) else len(list(arg)))
+
+        @_specs.parameter('arg', _T.Chain(_T.String(), _T.NotOfType(int)))
+        def chained(arg):
+            return 'chained:' + arg
+
+        @_specs.parameter('arg', _T.NotOfType(str, nullable=True))
+        def not_str(arg):
+            return 'notstr:%r' % (arg,)
+
+        def sub_len(yaql_interface, coll):
+            # a host function that evaluates a helper expression itself
+            return yaql_interface('$1.len() + $2', coll, 0)
+
+        def sub_sum(yaql_interface, coll):
+            return yaql_interface('$.select($ * 2).sum(0)', coll)
         hostlist = [1, 2, [3, 4]]
         self.hostlist = hostlist
         P.register_function(probe, name='probe')
+        P.register_function(kind_of, name='kindOf')
+        P.register_function(chained, name='chained')
+        P.register_function(not_str, name='notStr')
+        P.register_function(sub_len, name='subLen')
+        P.register_function(sub_sum, name='subSum')
         P.register_function(lambda: hostlist, name='hostlist')
         P['hostvar'] = [1, 2, [3]]
         P['hostdict'] = {'k': [1], 'm': {'z': 1}}
@@ -331,6 +378,25 @@ class World:
                 self.stmts.append(X.Statement(expr, self.engine))
             except Exception:
                 self.stmts.append(None)
+
+    @staticmethod
+    def _fresh_bare():
+        from yaql.language import contexts, conventions
+        from yaql.standard_library import (
+            boolean, branching, collections, common, math, queries, regex,
+            strings, system)
+        seams.HashSeam.counter = 1000000
+        root = contexts.Context(convention=conventions.CamelCaseConvention())
+        system.register_fallbacks(root)
+        ctx = root.create_child_context()
+        system.register(ctx, False)
+        for m_ in (common, boolean, strings, math):
+            m_.register(ctx)
+        collections.register(ctx, False)
+        queries.register(ctx, True)
+        regex.register(ctx)
+        branching.register(ctx)
+        return ctx
 
     def doc(self, di, registry=None):
         d = self.case['docs'][di]
@@ -419,6 +485,13 @@ def run_world(case, stats, record=None):
         if mode == 'copy' and text is not None:
             return w.engine(text, {'yaql.limitIterators': 1000}).evaluate(
                 data=data, context=w.P.create_child_context())
+        if mode in ('copyq', 'copyl') and text is not None:
+            # engines derived with stricter options, used side by side with
+            # the lax one
+            opts = {'yaql.memoryQuota': 120} if mode == 'copyq' else \
+                {'yaql.limitIterators': 2}
+            return w.engine(text, opts).evaluate(
+                data=data, context=w.P.create_child_context())
         if mode == 'yi' and text is not None:
             from yaql import yaql_interface
             return yaql_interface.YaqlInterface(w.P, w.engine)(
@@ -442,17 +515,35 @@ def run_world(case, stats, record=None):
         counter = sched.LineCounter(prefix, wl)
         need_counts = 'schedule' not in case and (case.get('sched') or {}).get(
             'policy') in ('pct', 'writes')
+        # Every evaluation ALONE: in its own forked copy of this process, so
+        # that no other evaluation of this run (and nothing it may leave
+        # behind in module- or object-level caches) can influence it.  The
+        # child evaluates twice to tell address-dependent outcomes apart.
+        changed_alone = False
         for t, ops in enumerate(case['tasks']):
             row = []
             for j, (si, di) in enumerate(ops):
-                if need_counts:
-                    with counter:
+                def alone(si=si, di=di):
+                    c = sched.LineCounter(prefix, wl)
+                    if need_counts:
+                        with c:
+                            o = outcome_of(lambda: evaluate(si, di))
+                    else:
                         o = outcome_of(lambda: evaluate(si, di))
-                else:
-                    o = outcome_of(lambda: evaluate(si, di))
+                    ch = world.snapshot() != snap0
+                    o2 = outcome_of(lambda: evaluate(si, di))
+                    return o, o2, c.lines, c.wpoints, c.sites, ch
+                o, o2, nl, nw, sites, ch = core.fork_call(alone)
+                if o != o2:
+                    unstable.add((t, j))
+                counter.lines += nl
+                counter.wpoints += nw
+                for k_, v_ in sites.items():
+                    counter.sites[k_] = counter.sites.get(k_, 0) + v_
+                changed_alone = changed_alone or ch
                 row.append(o)
             base.append(row)
-        if world.snapshot() != snap0:
+        if changed_alone:
             viols.append({'key': 'C18:shared-context-changed-by-sequential-'
                                  'evaluation',
                           'clause': 'the shared context is unchanged '
@@ -508,41 +599,49 @@ def run_world(case, stats, record=None):
             if spec.get('switch_at_w_override'):
                 spec['switch_at_w'] = spec['switch_at_w_override']
         info['measured'] = [counter.lines, counter.wpoints]
-        baton = sched.Baton(
-            sched_spec=spec, schedule=case.get('schedule'),
-            step_cap=STEP_CAP, on_switch=on_switch, write_lines=wl,
-            tracer_files=prefix)
+        def concurrent():
+            # Runs in a forked copy of this process: the worker itself never
+            # evaluates anything, so every run starts from the same process
+            # state (module-level caches cold) and replays independently of
+            # the runs before it.
+            baton = sched.Baton(
+                sched_spec=spec, schedule=case.get('schedule'),
+                step_cap=STEP_CAP, on_switch=on_switch, write_lines=wl,
+                tracer_files=prefix)
 
-        def mk(t, ops):
-            def fn():
-                outs = []
-                for si, di in ops:
-                    active[t] = 1
-                    try:
-                        outs.append(outcome_of(
-                            lambda: evaluate(si, di, cworld)))
-                    finally:
-                        active[t] = 0
-                return outs
-            return fn
-        for t, ops in enumerate(case['tasks']):
-            baton.add(mk(t, ops))
-        results = baton.run()
-        if baton.aborted:
-            info['aborted'] = baton.aborted
+            def mk(t, ops):
+                def fn():
+                    outs = []
+                    for si, di in ops:
+                        active[t] = 1
+                        try:
+                            outs.append(outcome_of(
+                                lambda: evaluate(si, di, cworld)))
+                        finally:
+                            active[t] = 0
+                    return outs
+                return fn
+            for t, ops in enumerate(case['tasks']):
+                baton.add(mk(t, ops))
+            res = baton.run()
+            return {'results': res, 'aborted': baton.aborted,
+                    'recorded': baton.recorded, 'steps': baton.total_steps,
+                    'switches': baton.switches, 'both': probe['both'],
+                    'changed': cworld.snapshot() != snap0}
+        cres = core.fork_call(concurrent, timeout=600)
+        results = cres['results']
+        if cres['aborted']:
+            info['aborted'] = cres['aborted']
             stats.inc('status.step_cap')
             return viols, info
         if 'schedule' not in case:
-            case['schedule'] = baton.recorded
-        info.update(steps=baton.total_steps, switches=baton.switches,
-                    both=probe['both'], recorded=baton.recorded)
+            case['schedule'] = cres['recorded']
+        info.update(steps=cres['steps'], switches=cres['switches'],
+                    both=cres['both'], recorded=cres['recorded'])
         for t, ops in enumerate(case['tasks']):
             for j, (si, di) in enumerate(ops):
                 if results[t] is None or results[t][j] != base[t][j]:
-                    # is the run-alone outcome itself stable?
-                    o2 = outcome_of(lambda: evaluate(si, di))
-                    o3 = outcome_of(lambda: evaluate(si, di))
-                    if o2 != base[t][j] or o3 != base[t][j]:
+                    if (t, j) in unstable:
                         stats.inc('nd.unstable_alone_skipped')
                         continue
                     viols.append({
@@ -560,7 +659,7 @@ def run_world(case, stats, record=None):
                     break
             if viols:
                 break
-        if not viols and cworld.snapshot() != snap0:
+        if not viols and cres['changed']:
             viols.append({'key': 'C18:shared-context-changed',
                           'clause': 'the shared context is unchanged '
                                     'afterwards',
